@@ -74,6 +74,7 @@ class World:
         self.log: list[Any] = []  # observation trace
         self.closed = False
         self.write_fault: Exception | None = None  # sync flavour: transport.write raises
+        self.ret_hook: Callable[[str], None] | None = None
         self._patch_transport()
 
     # --- transport whose write can raise synchronously (uvloop-style) ----------------------
@@ -119,6 +120,8 @@ class World:
             else:
                 world.results[name] = ("ok", r, world.loop.time())
                 world.note("ret", name, "ok")
+            if world.ret_hook is not None:
+                world.ret_hook(name)
 
         self.note("call", name)
         self.tasks[name] = asyncio.Task(runner(), loop=self.loop, eager_start=True, name=name)
